@@ -74,8 +74,9 @@ Fixpoint trailing_decision (keepws : bool) (rest : list xtok) : bool * bool :=
   end.
 
 (* one emitted piece, tagged with what it is (the tags are used by the statements, the bytes are the output) *)
-Inductive piece := PText (b : bytes) | PCData (raw content : bytes) (* CDATA kept or turned into text *) | PMarkup (b : bytes).
-Definition piece_bytes (p : piece) : bytes := match p with PText b => b | PCData raw _ => raw | PMarkup b => b end.
+Inductive piece := PText (b : bytes) | PCData (raw content : bytes) (* CDATA section kept *)
+                 | PCText (esc content : bytes) (* CDATA section turned into text *) | PMarkup (b : bytes).
+Definition piece_bytes (p : piece) : bytes := match p with PText b => b | PCData raw _ => raw | PCText esc _ => esc | PMarkup b => b end.
 
 Definition end_tag_bytes (t : xtok) : bytes :=
   if Nat.ltb (3 + length (text t)) (length (data t))
@@ -110,8 +111,7 @@ Fixpoint minify_pieces (keepws : bool) (omit : bool) (skip : nat) (ts : list xto
         | [] => minify_pieces keepws omit 0 rest
         | _ =>
           let '(esc, use) := escape_cdata_val (text t) in
-          let d := if use then esc else data t in
-          PCData d (text t) :: minify_pieces keepws (last_is_ws (text t)) 0 rest
+          (if use then PCText esc (text t) else PCData (data t) (text t)) :: minify_pieces keepws (last_is_ws (text t)) 0 rest
         end
       | XText =>
         let d1 := if omit && starts_with_ws (data t) then tl (data t) else data t in
@@ -135,5 +135,30 @@ Fixpoint minify_pieces (keepws : bool) (omit : bool) (skip : nat) (ts : list xto
     end
   end.
 
+(* ---------- writing the pieces (writeText of xml.go) ----------
+   Character data is written piece by piece (text tokens, CDATA sections turned into text; dropped comments and empty
+   sections leave no piece in between).  `]]>` must not appear in character data: [br] is the number of `]` (at most 2) that
+   end the character data written since the last markup; a `>` that would complete `]]>` across pieces is written `&gt;`. *)
+Fixpoint lead_br (b : bytes) : nat := match b with c :: r => if c =? 93 then S (lead_br r) else O | [] => O end.
+Definition trail_br (b : bytes) : nat := lead_br (rev b).
+Definition write_text (br : nat) (b : bytes) : bytes * nat :=
+  let n := lead_br b in
+  let '(pre, b1, br1) :=
+    match skipn n b with
+    | c :: r => if (c =? 62) && Nat.leb 2 (br + n) then (firstn n b ++ [38; 103; 116; 59], r, O) else ([], b, br)
+    | [] => ([], b, br)
+    end in
+  let m := trail_br b1 in
+  (pre ++ b1, Nat.min 2 ((if Nat.eqb m (length b1) then br1 else O) + m)).
+
+Fixpoint render_pieces (br : nat) (ps : list piece) : bytes :=
+  match ps with
+  | [] => []
+  | PText b :: r => let '(o, br') := write_text br b in o ++ render_pieces br' r
+  | PCText esc _ :: r => let '(o, br') := write_text br esc in o ++ render_pieces br' r
+  | PCData raw _ :: r => raw ++ render_pieces O r
+  | PMarkup b :: r => b ++ render_pieces O r
+  end.
+
 Definition xml_minify (keepws : bool) (ts : list xtok) : bytes :=
-  concat (map piece_bytes (minify_pieces keepws true 0 ts)).
+  render_pieces O (minify_pieces keepws true 0 ts).
